@@ -40,7 +40,13 @@ var NewReaderDict = flate.NewReaderDict
 func NewReader(r io.Reader) io.ReadCloser {
 	rr := &decompressor{}
 	rr.r = r
-	rr.rBuf = bufio.NewReader(r)
+	if br, ok := r.(*bufio.Reader); ok {
+		// use the caller's buffer whatever its size, as Reset does: a second
+		// buffer on top of it would read ahead of the end of the stream
+		rr.rBuf = br
+	} else {
+		rr.rBuf = bufio.NewReader(r)
+	}
 	return rr
 }
 
